@@ -345,6 +345,37 @@ def o_c03(tr):
             yield {"oracle": "queues-match-status", "signature": "accepted", "detail": str(d.aq)}
 
 
+def o_untouched_order(tr):
+    """writing one purchase order never changes what is read for another: an order that no transaction of the block names,
+    and whose own decisions and age leave it raised under the tally rule (or which is rejected/completed already), reads
+    after the block exactly as before - whatever was decided on, or happened to, the other orders"""
+    for prev, b, d in states(tr):
+        if prev is None or not prev.ent_params:
+            continue
+        sg = prev.ent_params["signers"].split(",") if prev.ent_params["signers"] != "-" else []
+        mn, lim = prev.ent_params["min"], prev.ent_params["limit"]
+        named = set()
+        for tx in b["txs"]:
+            body = tx["body"]
+            for k, w in enumerate(body):
+                if w == "ent.decide" and k + 1 < len(body):
+                    named.add(body[k + 1])
+        for i, po in prev.po.items():
+            if i not in d.po or str(i) in named:
+                continue
+            if po["status"] == 1:
+                acc = len([1 for x in po["decisions"] if x[1] == "2"]); rej = len([1 for x in po["decisions"] if x[1] == "3"])
+                age = b["time"] // 10**9 - po["raise"]
+                if (age >= lim and acc < mn) or rej > len(sg) - mn or acc >= mn:
+                    continue
+            elif po["status"] not in (3, 4):
+                continue
+            if d.po[i] != po:
+                others = sorted(j for j in prev.po if j != i and (j not in d.po or d.po[j] != prev.po[j]) or str(j) in named)
+                yield {"oracle": "untouched-order-unchanged", "signature": "status-%d->%d" % (po["status"], d.po[i]["status"]),
+                       "detail": "order %d was not written to in the block at %s and reads differently after it; orders written: %s" % (i, b["time"], others[:6])}
+
+
 def o_c04(tr):
     for prev, b, d in states(tr):
         ent_bal = d.bal.get("Ment", {})
@@ -588,6 +619,21 @@ def o_c09(tr):
                     yield {"oracle": "registration-stores-submitted", "signature": m, "detail": "%s %d stores %s; submitted in this block: %s" % (m, i, list(stored), [list(x) for x in subm][:6])}
             if new and new != list(range(prev.next[m], prev.next[m] + len(new))):
                 yield {"oracle": "ids-sequential", "signature": m, "detail": "%s from %d" % (new, prev.next[m])}
+            # the identifiers RETURNED to the registrants are the next unused ones, in order of execution (blocks in which a
+            # registration ran nested in an authz.exec are skipped: those return no identifier to compare)
+            returned, nested = [], False
+            for tx in b["txs"]:
+                if tx["result"] != "ok":
+                    continue
+                for k, mm in enumerate(split_msgs(tx["body"])):
+                    if mm and mm[0] == m + ".reg":
+                        v = tx["fields"].get("%d.id" % k)
+                        if v is not None and re.match(r"^\d+$", v):
+                            returned.append(int(v))
+                    elif mm and mm[0] == "authz.exec" and (m + ".reg") in mm:
+                        nested = True
+            if returned and not nested and returned != list(range(prev.next[m], prev.next[m] + len(returned))):
+                yield {"oracle": "returned-id-is-next-unused", "signature": m, "detail": "returned %s, next unused was %d" % (returned, prev.next[m])}
             if d.next[m] != prev.next[m] + len(new):
                 yield {"oracle": "ids-sequential", "signature": m + ".next", "detail": ""}
 
@@ -847,8 +893,22 @@ def o_c12_live(tr):
             yield {"oracle": "stream-op-succeeds", "signature": tx["kinds"][0], "detail": "tx %s: %s on a stream holding %d fails (%s)" % (tx["n"], tx["kinds"][0], st["deposit"][0], tx["result"])}
 
 
+def o_failed_batch(tr):
+    """a batch that failed leaves nothing behind: in a block whose proposals all failed (or were voted down) and in which no
+    transaction carrying a parameter update succeeded, the four modules' parameters are those of the block before"""
+    for prev, b, d in states(tr):
+        if prev is None or not b["govs"] or not all(g["result"] in ("err", "rejected") for g in b["govs"]):
+            continue
+        if any(tx["result"] == "ok" and any(k.endswith(".params") for k in tx["kinds"]) for tx in b["txs"]):
+            continue
+        if (prev.ent_params, prev.regparams, prev.str_fee) != (d.ent_params, d.regparams, d.str_fee):
+            yield {"oracle": "failed-batch-changes-nothing", "signature": "params-changed",
+                   "detail": "block at %s: every proposal failed (%s) and yet the parameters differ from the block before" % (b["time"], [" ".join(g["body"])[:100] for g in b["govs"]])}
+
+
 def o_c14(tr):
     yield from o_halt(tr)
+    yield from o_failed_batch(tr)
 
 
 def valid_denom(s):
@@ -1275,6 +1335,8 @@ def o_c15(tr):
         if l.startswith(("I ", "K ", "Z ")):
             cur = []; collecting = True
         elif l.startswith("D ") and collecting:
+            if l.startswith("D ent.params ") and cur:   # a digest printed again (`DIGEST` line): it replaces, not extends
+                cur = []
             cur.append(l)
         elif l.startswith("X "):
             before = list(cur)
@@ -1319,6 +1381,17 @@ def o_import_same(tr):
             yield v
 
 
+def o_import_inv(mod):
+    """the chain's own export breaks a registered invariant of `mod` when a fresh node is started from it (the node with the
+    crisis assertion panics at InitChain, the one without reports the broken invariant): the books of that module were not
+    what the export says"""
+    def f(tr):
+        for v in o_c15(tr):
+            if (v["oracle"] == "import-succeeds" and v["signature"] == "invariant-" + mod) or (v["oracle"] == "import-invariants" and mod in v["detail"]):
+                yield v
+    return f
+
+
 def o_c18(tr):
     """a listing never aliases one entity with another: every listed order, registration and stream equals its point read
     (the harness prints a `D <module>.alias` line when the keeper's listing and the point read of the same entity differ)"""
@@ -1332,6 +1405,32 @@ def o_invariants(tr):
     for l in tr.soft:
         if l.startswith("x inv") and l.endswith("broken"):
             yield {"oracle": "registered-invariant", "signature": l.split()[2], "detail": l}
+
+
+def o_record_as_submitted(tr):
+    """what an accepted submission stored is what was submitted: after a transaction that succeeded, the WRKChain block record
+    at (id, height) resp. the BEACON timestamp at (id, returned timestamp id) - when still held at the end of the block -
+    carries exactly the submitted hashes (and the submitted time when one was given)"""
+    for prev, b, d in states(tr):
+        for tx in b["txs"]:
+            if tx["result"] != "ok":
+                continue
+            for k, m in enumerate(split_msgs(tx["body"])):
+                if not m:
+                    continue
+                if m[0] == "wrk.rec" and len(m) == 9 and re.match(r"^\d+$", m[1]) and re.match(r"^\d+$", m[2]):
+                    held = d.recs["wrk"].get((int(m[1]), int(m[2])))
+                    if held is not None and tuple(held[:5]) != tuple(m[3:8]):
+                        yield {"oracle": "record-as-submitted", "signature": "wrk", "detail": "tx %s stored %s for the submitted %s" % (tx["n"], list(held[:5]), m[3:8])}
+                elif m[0] == "bcn.rec" and len(m) == 5 and re.match(r"^\d+$", m[1]):
+                    ts = tx["fields"].get("%d.tsid" % k)
+                    if ts is None or not re.match(r"^\d+$", ts):
+                        continue
+                    held = d.recs["bcn"].get((int(m[1]), int(ts)))
+                    if held is None:
+                        continue
+                    if held[0] != m[2] or (m[3] != "0" and len(held) > 1 and held[1] != m[3]):
+                        yield {"oracle": "record-as-submitted", "signature": "bcn", "detail": "tx %s stored %s for the submitted %s" % (tx["n"], list(held), m[2:4])}
 
 
 def o_record_query(tr):
@@ -1353,9 +1452,9 @@ def o_record_query(tr):
 
 
 ORACLES = {
-    "C02": [o_c02, o_invariants, o_c03], "C03": [o_c03, o_c13], "C04": [o_c04, o_invariants], "C05": [o_c05, o_c05_granter, o_c05_amount], "C07": [o_c07, o_c08, o_c08_prune, o_record_query, o_import_same], "C08": [o_c08, o_c08_prune, o_record_query, o_import_same],
-    "C09": [o_c09, o_owner_writes, o_import_same, o_owner_canonical], "C10": [o_c10, o_c10_fee, o_invariants], "C11": [o_c11, o_c11_zero, o_c11_clock, o_c11_topup, o_c11_rate], "C12": [o_c12, o_c12_live, o_c11_topup, o_c16], "C14": [o_c14], "C16": [o_c16, o_c03, o_c06_plain, o_c08, o_decide_succeeds, o_c10_fee], "C18": [o_c18, o_c09, o_c15, o_c20, o_page_progress, o_c08, o_c08_prune],
-    "C13": [o_c13, o_owner_writes, o_import_same, o_c18], "C17": [o_c17, o_page_progress, o_c04], "C20": [o_c20, o_page_progress], "C15": [o_c15, o_invariants], "C06": [o_c06], "C01": [],
+    "C02": [o_c02, o_invariants, o_c03], "C03": [o_c03, o_c13], "C04": [o_c04, o_invariants, o_import_inv("enterprise")], "C05": [o_c05, o_c05_granter, o_c05_amount], "C07": [o_c07, o_c08, o_c08_prune, o_record_query, o_record_as_submitted, o_import_same], "C08": [o_c08, o_c08_prune, o_record_query, o_import_same],
+    "C09": [o_c09, o_owner_writes, o_import_same, o_owner_canonical], "C10": [o_c10, o_c10_fee, o_invariants, o_import_inv("stream")], "C11": [o_c11, o_c11_zero, o_c11_clock, o_c11_topup, o_c11_rate], "C12": [o_c12, o_c12_live, o_c11_topup, o_c16], "C14": [o_c14], "C16": [o_c16, o_c03, o_c06_plain, o_c08, o_decide_succeeds, o_c10_fee], "C18": [o_c18, o_c09, o_c15, o_c20, o_page_progress, o_c08, o_c08_prune, o_untouched_order],
+    "C13": [o_c13, o_owner_writes, o_import_same, o_c18], "C17": [o_c17, o_page_progress, o_c04, o_import_inv("enterprise")], "C20": [o_c20, o_page_progress], "C15": [o_c15, o_invariants], "C06": [o_c06], "C01": [],
 }
 
 
@@ -1381,6 +1480,12 @@ def pure_case_key(q, ans):
 def run_pure_oracles(pid, q, ans):
     t = q.split()
     out = []
+    if pid in ("C13", "C09") and len(t) == 4 and t[0] == "ownergate":
+        # only the account the stored owner string decodes to passes the gate (A<i>/U<i>: the canonical resp. upper-case spelling)
+        want = "1" if (t[2][0] in "AU" and t[2][1:].isdigit() and t[3] == "A" + t[2][1:]) else "0"
+        if ans != want:
+            out.append({"oracle": "owner-gate", "signature": "%s/%s" % (t[1], t[2][0] if t[2] not in ("none", "-") else t[2]),
+                        "detail": "IsAuthorisedToRecord(%s registration with stored owner %s, recorder %s) = %s, must be %s" % (t[1], t[2], t[3], ans, want), "request": q})
     if pid == "C19" and t and t[0] == "conv" and len(t) == 4:
         amt, src, dst = t[1], t[2], t[3]
         if re.match(r"^\d+(\.\d{1,9})?$", amt) and src != dst:
